@@ -23,6 +23,7 @@
     differential runs of the whole ED chain (harness/h_c18_phys.cpp, checks/C18.py). *)
 Require Import Bool List Arith Permutation Ring_theory.
 From PV Require Import Outcome Index IndexProofs Fock Poly PolySem IndexSem.
+From PV Require IndexReprepare IndexReprepareProofs.
 
 (** prepare() returns normally: no null dereference at cpp:72, no write past the vector. *)
 Theorem prepare_total : forall (fixed order_spins : bool) (ss : list site),
@@ -430,3 +431,21 @@ Theorem observables_relabel_partial :
      chi K NO beta tol E w (C U i) (C U j) (CX U k) (CX U l) z1 z2 z3).
 Proof. exact IndexObsProofs.observables_relabel_partial. Qed.
 Print Assumptions observables_relabel_partial.
+
+(** * prepare() called again on the same object (supported since 1fd1f00: "a repeated call starts from scratch")
+
+    Model of the object state across calls: PV.IndexReprepare ([constructed] = the constructor's state,
+    [prepare_on] = the three reset statements at the top of prepare followed by the body run on the members it finds,
+    [prepare_history] = a sequence of calls on one object).  After any history of calls that return normally the
+    object holds the table of a single prepare(m_last) on a fresh object -- hence every theorem above applies to it. *)
+Theorem prepare_twice_is_last : forall (fixed m1 m2 : bool) (ss : list site),
+  NoDup (labels ss) -> harmless fixed m1 ss ->
+  IndexReprepare.prepare_history fixed (m1 :: m2 :: nil) ss IndexReprepare.constructed = prepare fixed m2 ss.
+Proof. exact IndexReprepareProofs.prepare_twice_is_last. Qed.
+Print Assumptions prepare_twice_is_last.
+
+Theorem prepare_history_is_last : forall (fixed : bool) (ms : list bool) (m : bool) (ss : list site) (t0 : table),
+  NoDup (labels ss) -> Forall (fun m' => harmless fixed m' ss) ms ->
+  IndexReprepare.prepare_history fixed (ms ++ m :: nil) ss t0 = prepare fixed m ss.
+Proof. exact IndexReprepareProofs.prepare_history_is_last. Qed.
+Print Assumptions prepare_history_is_last.
